@@ -117,8 +117,9 @@ Section NonceMutation.
     split; [exact Hs|]. split; [exact Ht|]. apply open_t_some. rewrite <- E. exact Hd.
   Qed.
 
-  (* contrapositive: if the primitive opens no triple other than the sealed one among those
-     the mutant parses to, Decrypt returns an error (never a plaintext) *)
+  (* contrapositive, per-instance: if the primitive does not open THE triple the mutant parses to
+     (the quantifier ranges over the plaintext Open might return, not over triples), Decrypt
+     releases no plaintext *)
   Theorem na_mutant_rejected_without_forgery tink_max prefix key iv p ad c c' ad' :
     length iv = ivlen -> enc tink_max prefix key iv p ad = Ok c -> (c', ad') <> (c, ad) ->
     (forall p', ~ aead_forgery key iv ad (seal key iv ad p)
